@@ -596,6 +596,20 @@ class ScopeTracer:
         self.keep.clear()
 
 
+def load_baseline():
+    cpath = os.path.join(common.CORPUS, "c14.txt")
+    o, f = [], []
+    if os.path.exists(cpath):
+        for ln in open(cpath):
+            ln = ln.strip()
+            if ln.startswith("{"):
+                rec = json.loads(ln)
+                if rec.get("type") == "baseline":
+                    o += rec.get("function_scoped_options", [])
+                    f += rec.get("function_scoped_format_fields", [])
+    return sorted(set(o)), sorted(set(f))
+
+
 def measure_scopes(names):
     """Run corpus configurations under the tracer.  Returns (res_o, res_f, local_f, lib_defaults_o, lib_defaults_f)."""
     from shroud import main as smain
@@ -657,6 +671,12 @@ def lib_doc(r, name="eqv", python=True, simple=False):
         cnt[0] += 1
         return ("fn", "f%d" % cnt[0], {}, {}, r.choice(pool))
 
+    if simple == "minimal":
+        pool = ["void {n}()", "int {n}(int a, double b)", "bool {n}(bool flag)"]
+        items = [("ns", "outer", {}, {}, [fn(pool), ("block", "B1", {}, {}, [fn(pool)]), ("ns", "deep", {}, {}, [fn(pool)])]),
+                 fn(pool)]
+        opts = {"debug_testsuite": True, "wrap_python": False, "wrap_lua": False}
+        return {"library": name, "cxx_header": name + ".hpp", "options": opts, "format": {}, "tree": items}
     if simple:
         pool = POOL_FREE[:10]
         items = [("ns", "outer", {}, {}, [("block", "B1", {}, {}, [fn(pool), fn(pool)]),
@@ -868,7 +888,7 @@ def attr_variants(r):
 def oracle_pairs(ctx, scr, thorough, fs_options, fs_formats, defaults_o, defaults_f):
     r = common.rng("c14-oracle")
     orc = Oracle(ctx, scr)
-    nlib = 8 if thorough else 3
+    nlib = 9 if thorough else 4
 
     # ---------- corpus: replayed pairs first
     cpath = os.path.join(common.CORPUS, "c14.txt")
@@ -878,6 +898,8 @@ def oracle_pairs(ctx, scr, thorough, fs_options, fs_formats, defaults_o, default
             if not ln or ln.startswith("#"):
                 continue
             rec = json.loads(ln)
+            if rec.get("type") != "pair":
+                continue
             da, db = rec["first"], rec["second"]
             orc.compare_docs("corpus", "corpus:" + rec["key"], rec["what"], da, db, skip_json=rec.get("skip_json", True))
 
@@ -897,7 +919,7 @@ def oracle_pairs(ctx, scr, thorough, fs_options, fs_formats, defaults_o, default
     ctx.note("oracle_formats", [f for f, _ in fmt_cases])
 
     for li in range(nlib):
-        doc = lib_doc(r, "eqv%d" % li, python=(li % 2 == 0), simple=(li == 0))
+        doc = lib_doc(r, "eqv%d" % li, python=(li % 2 == 0), simple=("minimal" if li == 0 else li == 1))
         base_tree, eb, _ = run_doc(doc, scr, "base%d" % li)
         if eb:
             ctx.note("generated_library_rejected_%d" % li, eb)
@@ -1291,6 +1313,23 @@ def _run(ctx, thorough, ok, drv, scr):
     fs_formats = sorted(n for n, c in res_f.items()
                         if set(c) <= {"function", "arg"} and n in defaults_f and n not in local_f
                         and isinstance(defaults_f[n], str))
+    # The domain must not silently shrink: an option that used to be read only from function scopes and is now read
+    # from a container's scope is exactly the defect this property is about.  Baseline = corpus/c14.txt.
+    ctx.note("measured_function_scoped_options", fs_options)
+    ctx.note("measured_function_scoped_format_fields", fs_formats)
+    base_o, base_f = load_baseline()
+    moved = sorted(n for n in base_o if n in res_o and not set(res_o[n]) <= {"function"})
+    moved_f = sorted(n for n in base_f if n in res_f and not set(res_f[n]) <= {"function", "arg"})
+    if moved or moved_f:
+        ctx.tie_broken("scope-measurement", {"formerly_function_scoped_now_read_elsewhere":
+                                             {n: dict(res_o[n]) for n in moved} | {n: dict(res_f[n]) for n in moved_f}})
+    if not thorough:
+        # the quick trace covers few configurations, so "only read from function scopes" is over-approximated there:
+        # the quick oracle uses the baseline (established with the full trace), the thorough one baseline + measured
+        fs_options, fs_formats = [], []
+    fs_options = sorted(set(fs_options) | set(n for n in base_o if n in defaults_o))
+    fs_formats = sorted(set(fs_formats) | set(n for n in base_f if n in defaults_f))
+    ctx.note("baseline_function_scoped_options", base_o)
     ctx.note("traced_configurations", trace_names)
     ctx.note("function_scoped_options", fs_options)
     ctx.note("options_read_elsewhere", mixed)
